@@ -16,6 +16,7 @@ import glob
 import itertools
 import json
 import os
+import re
 
 import common as C
 
@@ -159,7 +160,10 @@ def make_cells(chk):
     else:
         picked = cfgs
     k = rng.randrange(1000)
-    for ci, c in enumerate(picked):
+    passes = 1 if chk.tier == "quick" else 2      # thorough: the product twice, other spam/body rotation
+    for ci, c in enumerate(picked * passes):
+        if ci == len(picked):
+            k += 7
         for ri in range(ncls):
             if chk.tier == "quick" and rng.random() > 0.62:
                 continue
@@ -181,7 +185,7 @@ def make_cells(chk):
                 cells.append({"cfg": concretise(c, raw), "cfgsym": c, "lines": [(tag, args, intended)], "raw": raw,
                               "hs": hs, "spam": sv[0]})
     # several recipients per transaction (limit, duplicates, mixtures)
-    nmulti = 100 if chk.tier == "quick" else 600
+    nmulti = 100 if chk.tier == "quick" else 1500
     for _ in range(nmulti):
         c = rng.choice(cfgs)
         cls = rcpt_classes(fresh())
@@ -342,19 +346,26 @@ Definition model_ok (c : pcase) : bool :=
   list_eqb Bool.eqb (map rcpt_ok (to_rcpt t)) (o_rcpt c) && consistent os &&
   list_eqb Bool.eqb (flags_of os) (o_flags c) && same_gains (gains_of os) (o_gains c) &&
   list_eqb user_eqb (users (do_db (to_data t))) (o_users c).
+Definition spec_ok_on (c : pcase) (addrs : list str) : bool :=
+  let os := map erase (fst (spec_txn (c_cfg c) (c_db c) addrs (c_msg c))) in
+  list_eqb Bool.eqb (flags_of os) (o_flags c) && same_gains (gains_of os) (o_gains c).
+Definition class_on (c : pcase) (addrs : list str) : nat :=
+  match classify (c_cfg c) (c_db c) addrs (c_msg c) with
+  | None => 0 | Some K_quota_not_enforced => 1 | Some K_unknown_user_other_domain => 2
+  | Some K_role_rejected_as_unknown => 3 end%nat.
+(* the addresses as the MODEL parses the lines (None when a line is refused with 501) *)
+Fixpoint all_some (l : list (option str)) : option (list str) :=
+  match l with [] => Some [] | Some x :: l' => option_map (cons x) (all_some l') | None :: _ => None end.
+Definition parsed_addrs (c : pcase) := all_some (map parse_rcpt_to (c_lines c)).
 Definition spec_ok (c : pcase) : bool :=
-  match c_intended c with
-  | None => true
-  | Some addrs =>
-      let os := map erase (fst (spec_txn (c_cfg c) (c_db c) addrs (c_msg c))) in
-      list_eqb Bool.eqb (flags_of os) (o_flags c) && same_gains (gains_of os) (o_gains c)
-  end.
+  match c_intended c with None => true | Some addrs => spec_ok_on c addrs end.
 Definition class_of (c : pcase) : nat :=
-  match c_intended c with
-  | None => 0%nat
-  | Some addrs => match classify (c_cfg c) (c_db c) addrs (c_msg c) with
-                  | None => 0 | Some K_quota_not_enforced => 1 | Some K_unknown_user_other_domain => 2
-                  | Some K_role_rejected_as_unknown => 3 end%nat
+  match c_intended c with None => 0%nat | Some addrs => class_on c addrs end.
+(* 0 = spec on the parsed addresses holds, 1..3 = it fails inside that class, 9 = fails unclassified, 8 = not available *)
+Definition parsed_verdict (c : pcase) : nat :=
+  match parsed_addrs c with
+  | None => 8%nat
+  | Some addrs => if spec_ok_on c addrs then 0%nat else match class_on c addrs with O => 9%nat | k => k end
   end.
 Fixpoint positions (i : nat) (l : list bool) : list nat :=
   match l with [] => [] | b :: l' => if b then positions (S i) l' else i :: positions (S i) l' end.
@@ -398,25 +409,28 @@ def eval_policy_cases(tag, cases):
         body += "Definition model_bad := Eval vm_compute in positions 0 (map model_ok cases).\nPrint model_bad.\n"
         body += "Definition spec_bad := Eval vm_compute in positions 0 (map spec_ok cases).\nPrint spec_bad.\n"
         body += "Definition classes := Eval vm_compute in map class_of cases.\nPrint classes.\n"
+        body += "Definition pverdicts := Eval vm_compute in map parsed_verdict cases.\nPrint pverdicts.\n"
         rc, log = C.coq_eval_cases("C17_%s_%d" % (tag, off // CH), body)
         if rc != 0:
             return None, log
         mb, sb, cl = parse_nat_list(log, "model_bad"), parse_nat_list(log, "spec_bad"), parse_nat_list(log, "classes")
-        if mb is None or sb is None or cl is None or len(cl) != len(chunk):
+        pv = parse_nat_list(log, "pverdicts")
+        if mb is None or sb is None or cl is None or pv is None or len(cl) != len(chunk) or len(pv) != len(chunk):
             return None, log
-        return (mb, sb, cl), ""
+        return (mb, sb, cl, pv), ""
 
     with ThreadPoolExecutor(max_workers=6) as ex:
         outs = list(ex.map(one, offs))
-    model_bad, spec_bad, classes = [], [], []
+    model_bad, spec_bad, classes, pverdicts = [], [], [], []
     for off, (r, log) in zip(offs, outs):
         if r is None:
             return None, log
-        mb, sb, cl = r
+        mb, sb, cl, pv = r
         model_bad += [off + i for i in mb]
         spec_bad += [off + i for i in sb]
         classes += cl
-    return (model_bad, spec_bad, classes), ""
+        pverdicts += pv
+    return (model_bad, spec_bad, classes, pverdicts), ""
 
 
 # ---------------------------------------------------------------------------
@@ -506,6 +520,28 @@ def gen_parse_cases(chk, n):
     out += ["", " ", "TO:", "to:", "TO:<>", "TO:<", "TO:>", "TO: ", "TO:< >"]
     nonascii = ["TO:<\xe9@b>", "\xa0TO:<a@b>", "TO:<a@b>\xa0", "TO:\xc2\xa0<a@b>", "ıo:<a@b>".encode("utf-8").decode("latin-1")]
     return out, nonascii
+
+
+RCPT_SHAPE = re.compile(r"^(to:)[\t\n\x0b\x0c\r ]*<([^>]*)>( .*)?$", re.I | re.S)
+
+
+def report_parse_diff(chk, args, impl):
+    """parseRcptTo differs from the model on args. The documented reading (Spec.rcpt_shape) fixes the path
+    only for TO:<path>[ SP params]; elsewhere the spec is silent."""
+    got = None if (not isinstance(impl, dict) or impl.get("err")) else impl.get("r")
+    m = RCPT_SHAPE.match(args)
+    payload = {"suite": "parse_diff", "input": args, "impl": impl}
+    if m is None:
+        chk.broken_obligation("correspondence parse no longer checks: parseRcptTo(%r) = %r differs from the model (no RFC shape: the spec is silent)" % (args, got), payload)
+        return
+    cls = "rcpt_params" if m.group(3) else ("rcpt_prefix_case" if m.group(1) not in ("TO:", "to:") else None)
+    if got == m.group(2):
+        if cls is not None:
+            chk.notes.append("parseRcptTo(%r) now returns the path %r (differs from the model inside finding class %s; informational)" % (args, got, cls))
+        else:
+            chk.broken_obligation("correspondence parse no longer checks: parseRcptTo(%r) = %r differs from the model although the path is right" % (args, got), payload)
+        return
+    chk.violation("parseRcptTo(%r) = %r, the path of this RCPT argument is %r" % (args, got, m.group(2)), payload, cls=cls)
 
 
 def run_direct(chk):
@@ -629,8 +665,12 @@ def run_direct(chk):
             if any(ord(ch) > 127 for ch in json.dumps(inp, ensure_ascii=False)):
                 chk.notes.append("domain edge (non-ASCII bytes, outside the stated model domain) in %s: %r -> %r" % (name, inp, impl[i]))
                 continue
-            # model proved equal to the documented reading for these functions (c17_rcpt_path, c17_spam_routing,
-            # c17_validate_exact): a difference is a violation of the property itself
+            if name == "parse_diff":
+                report_parse_diff(chk, inp, impl[i])
+                continue
+            # model proved equal to the documented reading for these functions (c17_spam_routing,
+            # c17_validate_exact; address splitting is shared by model and spec): a difference is a
+            # violation of the property itself
             chk.violation("%s: implementation result %r differs from the model on %r" % (what, impl[i], inp),
                           {"suite": name, "input": inp, "impl": impl[i]})
     chk.cov["direct_parse"] = len(allp)
@@ -653,19 +693,42 @@ def run(chk):
     flat, r = run_policy(chk, cells, corpus)
     if r is None:
         return
-    model_bad, spec_bad, classes = r
+    model_bad, spec_bad, classes, pverdicts = r
     mb, sb = set(model_bad), set(spec_bad)
+    # does the implementation itself still mis-parse the two shape lines?
+    shape_lines = {t: (a, x) for (t, a, x) in rcpt_classes("x") if t in SHAPE_CLASS}
+    pr = C.run_ops([{"op": "batch", "fn": "parseRcptTo", "cases": [{"a": [shape_lines[t][0]]} for t in sorted(shape_lines)]}])
+    shape_live = set()
+    try:
+        for t, r1 in zip(sorted(shape_lines), pr["obs"][0]["rs"]):
+            if not (isinstance(r1, dict) and not r1.get("err") and r1.get("r") == shape_lines[t][1]):
+                shape_live.add(t)
+    except Exception:
+        shape_live = set(shape_lines)
+
+    def labels_of(i, cell):
+        """finding classes that explain a spec violation in cell i; [] = unexplained"""
+        shape = sorted(set(SHAPE_CLASS[t] for (t, _, _) in cell["lines"] if t in SHAPE_CLASS and t in shape_live))
+        if not shape:
+            return [CLASS_NAMES[classes[i]]] if classes[i] in CLASS_NAMES else []
+        pv = pverdicts[i]
+        if pv in (0, 8):                 # with the addresses as parsed, the policy holds (or a line is a 501)
+            return shape
+        if pv in CLASS_NAMES:
+            return shape + [CLASS_NAMES[pv]]
+        return []
+
     unclassified_spec = []
     n_known = {}
     for i in sorted(sb):
         cell, before, ob, ccls = flat[i]
-        shape = [SHAPE_CLASS[t] for (t, _, _) in cell["lines"] if t in SHAPE_CLASS]
-        cls = shape[0] if shape else CLASS_NAMES.get(classes[i])
         what = "policy cell: lines=%r cfg=%r -> RCPT %r, accepted %r, gains %r; the documented policy says otherwise" % (
             [a for (_, a, _) in cell["lines"]], {k: v for k, v in cell["cfg"].items()}, ob["rcpt_codes"], ob["flags"], ob["gains"])
-        if cls is not None:
-            n_known[cls] = n_known.get(cls, 0) + 1
-            chk.violation(what, payload_of(cell, before, ob), cls=cls)
+        labs = labels_of(i, cell)
+        if labs:
+            for cls in labs:
+                n_known[cls] = n_known.get(cls, 0) + 1
+                chk.violation(what, payload_of(cell, before, ob), cls=cls)
         else:
             unclassified_spec.append(i)
             if len(unclassified_spec) <= 3:
@@ -676,7 +739,7 @@ def run(chk):
         shape = [SHAPE_CLASS[t] for (t, _, _) in cell["lines"] if t in SHAPE_CLASS]
         if i in sb:
             continue            # reported above (known class or violation)
-        if classes[i] != 0 or shape:
+        if classes[i] != 0 or pverdicts[i] in CLASS_NAMES or shape:
             chk.notes.append("implementation differs from the model inside finding class %s (informational): lines=%r" % (
                 shape[0] if shape else CLASS_NAMES.get(classes[i]), [a for (_, a, _) in cell["lines"]]))
             continue
